@@ -30,6 +30,8 @@ def run(run, env, prop, gen_args=(), key_prefix="model-vs-impl", extra_ties=("Pa
     if os.path.exists(lp):
         labels = json.load(open(lp))
     files = sorted(glob.glob(os.path.join(wd, "cases_*.v")))
+    from props import _tokenview
+    tvh = _tokenview.start(wd)          # tview_*.v (token bytes vs the model's tokens), evaluated alongside the worlds
     res = vlib.run_case_files(files)
     ok = True
     for f, (r, out) in sorted(res.items()):
@@ -51,6 +53,7 @@ def run(run, env, prop, gen_args=(), key_prefix="model-vs-impl", extra_ties=("Pa
     run.obligation("correspondence: model = implementation on every generated world", ok)
     if not ok and not run.violations and not run.known_hits:
         run.violation("correspondence-broken", "case files could not be evaluated", dict(notes=run.notes), no_input=True)
+    _tokenview.finish(run, tvh, prop)   # obligation "token views" + violations token-view:<field>
     for p in stats.get("panic_list", []) or []:
         run.violation("panic", "implementation panicked: " + p, dict(panic=p))
     for p in stats.get("accessor_mismatches") or []:
